@@ -316,7 +316,7 @@ impl Prop for C15 {
             prog,
             opts: (rng.chance(1, 2), rng.chance(1, 2), rng.chance(1, 3)),
             binary,
-            eof_after: if rng.chance(1, 4) { Some(rng.usize(3)) } else { None },
+            eof_after: if rng.chance(1, 3) { Some(rng.usize(2)) } else { None },
             final_newline: rng.chance(1, 2),
         }
     }
